@@ -2031,6 +2031,11 @@ impl VirtualFileSystem for Memfs {
         let mut guard = self.write_guard();
         let path = self._abs(&guard, path)?;
 
+        // Nothing to do if the target doesn't exist
+        if !guard.contains_entry(&path) {
+            return Ok(());
+        }
+
         // First check if the target contains files
         if let Some(entry) = guard.get_entry(&path) {
             if let Some(ref files) = entry.files {
